@@ -292,20 +292,34 @@ theorem raiseX_true_of_dead {w : XWorld} {me : Caller}
       · rw [hgone] at h; cases h
       · rw [hre] at h; cases h
 
-theorem parentOfW_dead {s : PStep} {low pid ct : Nat} (hroot : pid ≠ low) (hdead : ¬ SameAt s pid ct) :
-    parentOfW s low pid ct = .nsp pid := by
+/-- a dead caller gets NoSuchProcess — off the lowest PID, or everywhere once the stop is guarded -/
+theorem parentOfW_dead {rg : Bool} {s : PStep} {low pid ct : Nat} (hroot : pid ≠ low ∨ rg = true)
+    (hdead : ¬ SameAt s pid ct) : parentOfW rg s low pid ct = .nsp pid := by
   unfold parentOfW
-  simp only [hroot, if_false]
-  cases hwi : s.wi pid with
-  | gone => rfl
-  | denied => rfl
-  | ok pp s0 =>
-    by_cases hs0 : s0 = ct
-    · exact absurd ⟨pp, by rw [hwi, hs0]⟩ hdead
-    · simp [hs0]
+  by_cases hlow : pid = low
+  · have hrg : rg = true := by
+      rcases hroot with h | h
+      · exact absurd hlow h
+      · exact h
+    simp only [hlow, if_true, hrg]
+    cases hwi : s.wi low with
+    | gone => rfl
+    | denied => rfl
+    | ok pp s0 =>
+      by_cases hs0 : s0 = ct
+      · exact absurd ⟨pp, by rw [hlow, hwi, hs0]⟩ hdead
+      · simp [hs0]
+  · simp only [hlow, if_false]
+    cases hwi : s.wi pid with
+    | gone => rfl
+    | denied => rfl
+    | ok pp s0 =>
+      by_cases hs0 : s0 = ct
+      · exact absurd ⟨pp, by rw [hwi, hs0]⟩ hdead
+      · simp [hs0]
 
 /-- what `parentOfW` = none means -/
-theorem parentOfW_none {s : PStep} {low pid ct : Nat} (h : parentOfW s low pid ct = .none) :
+theorem parentOfW_none {rg : Bool} {s : PStep} {low pid ct : Nat} (h : parentOfW rg s low pid ct = .none) :
     pid = low ∨ (SameAt s pid ct ∧ ∃ pp st0, s.wo pid = .ok pp st0 ∧
       (s.wp pp = .gone ∨ ∃ gp st, s.wp pp = .ok gp st ∧ ct < st)) := by
   unfold parentOfW at h
